@@ -29,6 +29,14 @@ class Disabled(Exception):
     pass
 
 
+class MergeRefuted(Unsupported):
+    """Differential validation showed that two histories merged by fingerprint behave differently."""
+
+    def __init__(self, tname, node, msg):
+        super().__init__(msg)
+        self.tname, self.node = tname, node
+
+
 class CSym(SymState):
     """Concrete state view with copy-on-write; a false guard aborts the evaluation."""
 
@@ -127,6 +135,51 @@ class GState:
         return (tuple(sorted(self.v.items())), tuple(sorted((t, n.id) for t, n in self.pos.items())))
 
 
+FP_BLACKLIST = set()
+TIMEOUT_CASES = ('fail', 'timeout', 'Empty', 'Full')
+TIMEOUT_BUDGET = 3
+
+
+def is_timeout_case(desc, case):
+    """A case that stands for `the timed wait expired` (time passing)."""
+    obj, kind, op, iargs = desc
+    if case not in TIMEOUT_CASES and case is not False:
+        return False
+    if kind == 'Lock':
+        return op == 'acquire' and case == 'fail' and iargs[0] and iargs[1]
+    if kind == 'Seq':
+        return (op == 'get' and case == 'Empty' and iargs[0] and iargs[1]) or (
+            op == 'put' and case == 'Full' and iargs[1] and iargs[2])
+    if kind == 'Future':
+        return op in ('result', 'exception') and case == 'timeout'
+    if kind == 'Thread':
+        return op == 'join' and case == 'timeout'
+    if kind == 'Event':
+        return op == 'wait' and case is False and iargs[0]
+    return False
+
+
+def over_budget(node, case):
+    """Bound on the environment: the same timed wait (thread, source location) expires at most
+    TIMEOUT_BUDGET times along one path.  Loops that merge into a cycle never reach it."""
+    if node.desc is None or not is_timeout_case(node.desc, case):
+        return False
+    key = (node.desc[1], node.desc[2], node.loc[:3] if node.loc else None)
+    n = 0
+    m = node
+    seen = 0
+    while m.parent is not None and seen < 400:
+        p = m.parent
+        if p.desc is not None and (p.desc[1], p.desc[2], p.loc[:3] if p.loc else None) == key \
+                and is_timeout_case(p.desc, m.pcase):
+            n += 1
+            if n >= TIMEOUT_BUDGET:
+                return True
+        m = p
+        seen += 1
+    return False
+
+
 class Explorer:
     def __init__(self, scn, seed=0, max_cycle=4, verbose=False):
         self.scn = scn
@@ -197,6 +250,8 @@ class Explorer:
         desc = (obj._vname, obj._kind, op, iargs)
         if fp is not None and not self.validating:
             tgt = self.fpmap.get((ctx.name, desc, fp))
+            if tgt is not None and (ctx.name, fp) in FP_BLACKLIST:
+                tgt = None
             if tgt is not None and tgt.path != tuple(ctx.script[: ctx.pos]):
                 # the same local state was reached before along another history: merge
                 self.merge = tgt
@@ -220,6 +275,11 @@ class Explorer:
             return None
         tid = self.threads[ctx.name].tid
         for c, nv in self.enabled(tid, desc, self.scratch):
+            if is_timeout_case(desc, c):
+                key = (desc[1], desc[2], loc[:3])
+                cnt = sum(1 for r in tr if (r.kind, r.op, r.loc[:3]) == key and is_timeout_case(r.desc(), r.case))
+                if cnt >= TIMEOUT_BUDGET:
+                    continue
             self.scratch = nv
             return c
         return None
@@ -383,14 +443,14 @@ class Explorer:
             if len(tr) > len(alt):
                 got = ('op', tr[len(alt)].desc())
             elif status2 is not None:
-                got = ('end', status2[0])
+                got = ('end', status2[0], str(status2[1]))
             else:
                 got = None
             want = ('op', node.desc) if node.desc is not None else (
-                ('end', node.terminal[0]) if node.terminal is not None else None)
+                ('end', node.terminal[0], str(node.terminal[1])) if node.terminal is not None else None)
             if got is not None and want is not None and got != want:
-                raise Unsupported(f'fingerprint merge refuted in {tname}: via {node.path[-3:]} next is {want}, '
-                                  f'via merged history {alt[-3:]} it is {got}')
+                raise MergeRefuted(tname, node, f'fingerprint merge refuted in {tname}: via {node.path[-3:]} next is '
+                                   f'{want}, via merged history {alt[-3:]} it is {got}')
 
     # ---- budgeted concrete exploration of the product -------------------------------------------
     def node_at(self, st, t):
@@ -410,6 +470,8 @@ class Explorer:
                     continue
             tid = self.threads[t].tid
             for c, nv in self.enabled(tid, node.desc, st.v):
+                if over_budget(node, c):
+                    continue
                 ch = node.children.get(c)
                 if ch is None:
                     self.expand(t, node.path + (c,), nv)
